@@ -232,8 +232,15 @@ def sec_loader(rec, patches=None):
             rec.fact(f"loader/path{pi}/returned-halfmaps-are-the-split-halves(zero-normalised)", bool(same_halves), key="C17/loader/halfmaps", detail={})
 
 
+def sec_halves(rec, n=5, patches=None):
+    """the two half sets that are correlated are disjoint and jointly exhaustive, for odd and even molecule counts (executed by C09's split section)"""
+    from .c09 import sec_split
+
+    sec_split(rec, n=n, n_set=1, patches=patches)
+
+
 def sections(tier):
-    S = [("labels", "checks.c17", "sec_labels", {}), ("loader", "checks.c17", "sec_loader", {})]
+    S = [("labels", "checks.c17", "sec_labels", {}), ("loader", "checks.c17", "sec_loader", {}), ("halves-n4", "checks.c17", "sec_halves", {"n": 4}), ("halves-n5", "checks.c17", "sec_halves", {"n": 5})]
     # (box, shell width) pairs in which every reported shell is non-empty (the property's lower bound on the width exists for that reason)
     cfgs = [((1, 1, 2), 0.5), ((1, 2, 2), 0.5), ((2, 2, 2), 0.5), ((1, 1, 4), 0.25), ((1, 2, 4), 0.25)]
     if not quick(tier):
